@@ -269,6 +269,7 @@ type UnitResult struct {
 	Tables     []string
 	AxiomNames []string
 	Pos        string
+	WritesAST  bool
 }
 
 func (e *Engine) newUnit(p *packages.Package, ct *Contract) *Unit {
@@ -323,6 +324,7 @@ func (e *Engine) verifyFunc1(p *packages.Package, ct *Contract) (res *UnitResult
 			}
 		}
 		res.Obls = u.obls
+		res.WritesAST = u.astWrite
 		res.Warnings = u.warnings
 		res.Abstracted = u.abstracted
 		res.Tables = u.tablesUsed
